@@ -9,14 +9,18 @@ theorem JobKindOK.transport {s s' : St} {j j' : Job} (h : JobKindOK s j)
     (h1 : s'.phase = s.phase) (h2 : s'.frozen = s.frozen) (h3 : s'.jfrozen = s.jfrozen) (h4 : s'.jcur = s.jcur)
     (h5 : s'.frozenSeq = s.frozenSeq) (h6 : s'.recov = s.recov) (h7 : s'.seq = s.seq)
     (k1 : j'.kind = j.kind) (k2 : j'.edit = j.edit) (k3 : j'.outs = j.outs) (k4 : j'.rmJournals = j.rmJournals)
-    (k5 : j'.mkJournal = j.mkJournal) (k6 : j'.pc.beforeCommit = true → j.pc.beforeCommit = true) :
+    (k5 : j'.mkJournal = j.mkJournal) (k6 : j'.pc.beforeCommit = true → j.pc.beforeCommit = true)
+    (h8 : s'.tr = s.tr) (h9 : s'.issued = s.issued) (k7 : j.kind = .tr → j'.rmTables = j.rmTables) :
     JobKindOK s' j' := by
+  have h9' : issuedGrps s' = issuedGrps s := by unfold issuedGrps; rw [h9]
   unfold JobKindOK at h ⊢
-  rw [k1, h1, h2, h3, h4, h5, h6, h7, k2, k3, k4, k5]
+  rw [k1, h1, h2, h3, h4, h5, h6, h7, k2, k3, k4, k5, h8, h9']
   cases hk : j.kind <;> rw [hk] at h <;> simp only at h ⊢
   · exact h
   · exact h
   · exact h
+  · exact h
+  · rw [k7 hk]; exact h
 
 theorem MkJournalOK.transport {s s' : St} {d d' : Disk} {j j' : Job} (h : MkJournalOK s d j)
     (h1 : s.nextFile ≤ s'.nextFile) (h2 : s'.jcur = s.jcur) (h3 : d'.journals = d.journals)
@@ -36,6 +40,30 @@ theorem MkJournalOK.transport {s s' : St} {d d' : Disk} {j j' : Job} (h : MkJour
     · rw [if_pos hc] at h'; rw [if_pos (k2.2 hc)]; exact h'
     · rw [if_neg hc] at h'; rw [if_neg (fun x => hc (k2.1 x))]; exact h'
 
+/-- the clause about a compaction's inputs under a step that leaves the input tables and the session's
+    version alone and does not go back behind the commit -/
+theorem InputsOK.transport {s s' : St} {d d' : Disk} {j j' : Job} {e : MRec} (h : InputsOK s d j e)
+    (hk : j'.kind = j.kind) (ho : j'.outs = j.outs) (hrm : j.kind = .compaction → j'.rmTables = j.rmTables)
+    (hbc : j'.pc.beforeCommit = true → j.pc.beforeCommit = true) (hl : j'.pc.beforeCommit = true → s'.live = s.live)
+    (hT : j'.pc.beforeCommit = true → ∀ t, (∀ o ∈ j.outs, t ≠ o.1) → lookup d'.tables t = lookup d.tables t) :
+    InputsOK s' d' j' e := by
+  unfold InputsOK at h ⊢
+  rw [hk]
+  split
+  · rename_i hc
+    rw [if_pos hc] at h
+    obtain ⟨a, b, c, dlt, f⟩ := h
+    refine ⟨a, b, by rw [hrm hc]; exact c, by rw [ho]; exact dlt, fun hb => ?_⟩
+    obtain ⟨f1, f2⟩ := f (hbc hb)
+    refine ⟨by rw [hl hb]; exact f1, ?_⟩
+    have : outsGrps j' = outsGrps j := by unfold outsGrps; rw [ho]
+    rw [this, f2]
+    exact (liveGrps_congr (d := d) (d' := d') (v := ⟨e.deleted, 0, 0, 0⟩)
+      (fun t ht => hT hb t (fun o ho' hc' => by have := dlt t ht o ho'; omega))).symm
+  · rename_i hc
+    rw [if_neg hc] at h
+    exact h
+
 /-- the state after a job step that only moves the pc -/
 theorem goto_eq (s : St) (j : Job) (pc : JPc) :
     ({ s with job := some { j with pc := pc } } : St) =
@@ -48,6 +76,58 @@ theorem Inv.not_crashed {cfg : Cfg} {s : St} {d : Disk} (h : Inv cfg s d) {j : J
   have := (h.crashed hc).1
   rw [hj] at this
   cases this
+
+/-- `db.seq` lies below what the job's edit may carry -/
+theorem Inv.seq_le_sqCap {cfg : Cfg} {s : St} {d : Disk} (h : Inv cfg s d) {j : Job} (hj : s.job = some j) :
+    s.seq ≤ sqCap s j := by
+  unfold sqCap
+  split
+  · rename_i hk
+    have hok := h.job
+    rw [hj] at hok
+    have hkind := (hok : JobOK cfg s d j).kind
+    unfold JobKindOK at hkind
+    rw [hk] at hkind
+    simp only at hkind
+    obtain ⟨hph, _, _, _, hkind⟩ := hkind
+    have htr := (h.run hph).norecov.2
+    unfold TrOK at htr
+    cases ht : s.tr with
+    | none => exact Nat.le_refl _
+    | some g =>
+      rw [ht] at htr hkind
+      have hkind : Holds j.edit _ := hkind
+      rw [holds_iff] at hkind
+      obtain ⟨e, _, _, _, _, hne, _⟩ := hkind
+      have h1 : g.seq = s.seq + 1 := htr.2.2.2.1
+      have h3 := Grp.seq_lt_fin hne
+      simp only
+      omega
+  · exact Nat.le_refl _
+
+/-- the bound of `ViewBounds` does not decrease under a step of the job that keeps its kind, `tr`, `db.seq` and
+    does not go back behind the commit -/
+theorem Inv.seqHi_step {cfg : Cfg} {s s' : St} {d : Disk} (h : Inv cfg s d) {j j' : Job} (hj : s.job = some j)
+    (hj' : s'.job = some j') (htr : s'.tr = s.tr) (hseq : s'.seq = s.seq) (hk : j'.kind = j.kind)
+    (hpc : j'.pc.beforeCommit = true → j.pc.beforeCommit = true) : seqHi s ≤ seqHi s' :=
+  seqHi_le_of_job hj hj' htr hseq hk hpc (h.seq_le_sqCap hj)
+
+/-- the invariant does not look at `session.manifestFailed` -/
+theorem Inv.set_manifestFailed {cfg : Cfg} {s : St} {d : Disk} (h : Inv cfg s d) (b : Bool) :
+    Inv cfg { s with manifestFailed := b } d := by
+  obtain ⟨h1, h2, h3, h4, h5, h6, h7⟩ := h
+  refine ⟨h1, h2, h3, fun hr => ?_, fun hr => ?_, h6, ?_⟩
+  · obtain ⟨r1, r2, r3, r4, r5, r6, r7, r8, r9⟩ := h4 hr
+    exact ⟨r1, r2, r3, r4, r5, r6, r7, r8, r9⟩
+  · have := h5 hr
+    show Holds s.recov _
+    refine this.imp (fun r hr' => ?_)
+    obtain ⟨r1, r2, r3, r4, r5, r6, r7, r8, r9, r10⟩ := hr'
+    exact ⟨r1, r2, r3, r4, r5, r6, r7, r8, r9, r10⟩
+  · show Holds' s.job _
+    refine Holds'.imp (o := s.job) h7 (fun j hj => ?_)
+    obtain ⟨j1, j2, j3, j4, j5, j6, j7, j8, j9, j10, j11, j12⟩ := hj
+    exact ⟨j1, j2, j3, j4, j5, j6, j7, j8, j9, j10, j11, j12⟩
 
 /-- everything but the `job` clause, for a step inside the table phase: only table `n`, which no admissible
     view lists, changes -/
@@ -66,6 +146,9 @@ theorem Inv.table_step {cfg : Cfg} {s : St} {d : Disk} (h : Inv cfg s d) {j : Jo
   have hnc : NoCommitYet s := by unfold NoCommitYet; rw [hj]; exact hbc
   have hpf := phase_frame (d' := { d with tables := T' }) h j' s.nextFile (Nat.le_refl _) rfl rfl rfl
     (by subst hj'; exact hpc) ⟨j, hj, hnr⟩ (fun _ => hnc)
+    (fun j0 h0 => by
+      rw [hj] at h0; cases h0; subst hj'
+      exact ⟨rfl, fun _ hb => by rw [hbc] at hb; cases hb⟩)
   constructor
   · apply h.disk.frame (d' := { d with tables := T' }) rfl rfl _ hTn h.disk.mnodup (fun _ hx => hx) (fun _ hx => hx)
     intro mf hc k hk v hv t ht
@@ -76,7 +159,8 @@ theorem Inv.table_step {cfg : Cfg} {s : St} {d : Disk} (h : Inv cfg s d) {j : Jo
     omega
   · exact h.mm.of_same rfl rfl
   · intro _
-    exact hb.of_same rfl (Nat.le_refl _) (Nat.le_refl _) (fun hr => ⟨hr, Nat.le_refl _⟩)
+    exact hb.of_same rfl (h.seqHi_step hj rfl rfl rfl (by subst hj'; rfl) (fun _ => hbc)) (Nat.le_refl _)
+      (fun hr => ⟨hr, Nat.le_refl _⟩)
   · exact hpf.1
   · exact hpf.2
   · intro hc; exact absurd hc hph
